@@ -92,6 +92,18 @@ def write_fixes(ctx):
         open(ctx.path(f"proposed_fix_{f['n']}.diff"), "w").write(f["diff"])
 
 
+def keep(ctx, path):
+    """copy a replay file to out/C05_replay (tools/check wipes out/C05 at start-up, also for --replay)"""
+    d = os.path.join(vlib.VERIF, "out", ctx.pid + "_replay")
+    os.makedirs(d, exist_ok=True)
+    dst = os.path.join(d, os.path.basename(path))
+    try:
+        shutil.copy(path, dst)
+        return dst
+    except Exception:
+        return path
+
+
 def repo_dir():
     return os.environ.get("VERIF_REPO", "/repo")
 
@@ -202,26 +214,6 @@ def strict_single(ctx, exe, rec, tag):
     return not bad, op
 
 
-def classify_leg2(ctx, bdir, rec, nbad):
-    """rec failed twice on the tree under test.  Known finding iff a listed proposed fix alone (or all listed together)
-    makes it pass."""
-    keys = [k for k in ctx.known if k in FIXES and k.startswith("leg2:") or k in FIXES and k in ctx.known]
-    keys = sorted(set(keys))
-    for k in keys:
-        exe = variant_binary(ctx, bdir, [k])
-        if exe:
-            ok, _ = strict_single(ctx, exe, rec, f"cls{nbad}_{FIXES[k]['n']}")
-            if ok:
-                return [k]
-    if len(keys) > 1:
-        exe = variant_binary(ctx, bdir, keys)
-        if exe:
-            ok, _ = strict_single(ctx, exe, rec, f"cls{nbad}_all")
-            if ok:
-                return keys
-    return None
-
-
 def leg2(ctx, bdir):
     q = ctx.quick
     exe = os.path.join(bdir, "regalloc")
@@ -236,9 +228,9 @@ def leg2(ctx, bdir):
         ctx.log(f"exhaustive enumeration: {len(progs)} programs, {r.distinct} states")
     # (b) simulation: skeleton x pressure x hazard mix
     plan = [
-        ("lo", list(range(1, 15)), 6, 60 if q else 500, (0,)),
-        ("mid", list(range(12, 41)), 5, 80 if q else 700, (0,)),
-        ("vec", [3, 6, 10, 14, 20], 5, 80 if q else 700, (4, 10, 15, 17, 20, 30, 40)),
+        ("lo", list(range(1, 15)), 6, 52 if q else 500, (0,)),
+        ("mid", list(range(12, 41)), 5, 60 if q else 700, (0,)),
+        ("vec", [3, 6, 10, 14, 20], 5, 48 if q else 700, (4, 10, 15, 17, 20, 30, 40)),
     ]
     if not q:
         plan.append(("hi", [48, 64, 96, 128, 160, 200], 6, 150, (0, 24)))
@@ -316,7 +308,7 @@ def leg2(ctx, bdir):
         if ok:
             raise Broken(f"program {pid}: mismatch not reproducible in isolation")
         ctx.violation(f"x86-64 host run differs from the interpreter: skeleton={rec['meta'][0]} pressure={rec['meta'][1]} mix={rec['meta'][2]} "
-                      f"status={obsid[pid].get('status')} (program id {pid}, {len(rec['prog'])} instructions; {len(remaining)} unexplained programs in total)", sop)
+                      f"status={obsid[pid].get('status')} (program id {pid}, {len(rec['prog'])} instructions; {len(remaining)} unexplained programs in total)", keep(ctx, sop))
     return progs
 
 
@@ -392,8 +384,11 @@ def leg1(ctx, bdir, progs):
     vlib.write_ndjson(pp, progs)
     byid = {p["id"]: p for p in progs}
     total, unsupported, rejected = 0, {}, 0
+    # x86-32: functions with xmm registers need a dynamically aligned frame (not supported by the translator): not recorded
+    pp32 = ctx.path("leg1_programs_x86.ndjson")
+    vlib.write_ndjson(pp32, [p for p in progs if len(p["meta"]) < 4 or p["meta"][3] == 0])
     for arch in ARCHS:
-        fns, why, n = record_and_translate(ctx, exe, arch, pp, "leg1")
+        fns, why, n = record_and_translate(ctx, exe, arch, pp32 if arch == "x86" else pp, "leg1")
         if why.get("CRASH"):
             raise Broken(f"{arch}: the allocator crashed on Leg-2 programs {why['CRASH'][:5]} (see leg1_rec_{arch}.ndjson)")
         total += len(fns)
@@ -438,7 +433,7 @@ def leg1(ctx, bdir, progs):
             pc, what = rej[fid]
             ctx.violation(f"{arch}: translation validation rejects program {fid} (skeleton={rec['meta'][0]} pressure={rec['meta'][1]} mix={rec['meta'][2]}): "
                           f"at op {pc} the instruction reads {what} (location, virtual register) but the location does not hold that register's value; "
-                          f"{len(remaining)} unexplained functions for this architecture", rp)
+                          f"{len(remaining)} unexplained functions for this architecture", keep(ctx, rp))
     ctx.extra["leg1_functions"] = total
     ctx.extra["leg1_rejected"] = rejected
     ctx.extra["leg1_unsupported"] = unsupported
@@ -449,9 +444,9 @@ def leg1_gen(ctx, bdir, tests=False):
     a64 ld1/ld2/st1/tbl register lists that need consecutive registers), or (tests=True) on the functions of the
     repository's asmjit_test_compiler_x86.cpp / _a64.cpp."""
     exe = os.path.join(bdir, "regalloc")
-    count = 40 if ctx.quick else 500
+    count = 40 if ctx.quick else 300
     src = "tests" if tests else "gen"
-    for arch in (("x64", "x86", "a64") if tests else ("x64", "a64")):
+    for arch in ((("x64", "a64") if ctx.quick else ("x64", "x86", "a64")) if tests else ("x64", "a64")):
         g = ("tests",) if tests else (ctx.seed, count)
         fns, why, n = record_and_translate(ctx, exe, arch, None, src, gen=g)
         crashed = why.pop("CRASH", [])
@@ -495,18 +490,18 @@ def leg1_gen(ctx, bdir, tests=False):
             vlib.write_ndjson(rp, [{"gen": src, "arch": arch, "seed": ctx.seed, "count": count, "fid": fid}])
             if fid in crashed:
                 ctx.violation(f"{arch}: the register allocator crashes (or hangs) on {src} function {fid} (seed {ctx.seed}) "
-                              f"(valid program with register lists / mixed register classes); {len(remaining)} unexplained", rp)
+                              f"(valid program with register lists / mixed register classes); {len(remaining)} unexplained", keep(ctx, rp))
             else:
                 pc, what = rej[fid]
                 ctx.violation(f"{arch}: translation validation rejects {src} function {fid} (seed {ctx.seed}): at op {pc} the instruction reads "
-                              f"{what} (location, virtual register) but the location does not hold that register's value; {len(remaining)} unexplained", rp)
+                              f"{what} (location, virtual register) but the location does not hold that register's value; {len(remaining)} unexplained", keep(ctx, rp))
 
 
 def run(ctx):
     write_fixes(ctx)
     bdir = ctx.build("plain", "regalloc")
     progs = leg2(ctx, bdir)
-    sel = progs if ctx.quick else progs[-1500:]
+    sel = progs if ctx.quick else progs[-1000:]
     leg1(ctx, bdir, sel)
     leg1_gen(ctx, bdir)
     leg1_gen(ctx, bdir, tests=True)
@@ -517,9 +512,17 @@ def run(ctx):
         "the host CPU executes x86-64 as architected",
     ]
     vlib.write_evidence(ctx, "translation_validation",
-        rule="programs = distinct generated programs; evaluations = (program,input) pairs whose observed (ret, memory, call log) TLC compared",
-        trusted_base=["TLC", "spec/machine/RegAllocInterp.tla", "harness/regalloc.cpp macro expansion"],
-        extra={"programs": ctx.extra.get("leg2_programs", 0), "disagreements_checked": ctx.extra.get("leg2_disagreeing_programs", 0)})
+        rule="programs = distinct TLC-generated programs executed on the host; evaluations = (program,input) pairs whose observed (ret, memory, "
+             "call log) TLC compared with the interpreter; traces_validated_against_impl = allocated functions (x86-64, x86-32, AArch64) "
+             "accepted by the location-map exploration; states = TLC states of the comparison and of the exploration",
+        explanation="level translation_validation: every allocated function is validated individually (Leg 1: symbolic, all inputs, all paths; "
+                    "Leg 2: concrete execution on 8 inputs); nothing is proved about the allocator for programs outside the explored set",
+        trusted_base=["TLC", "spec/machine/RegAllocInterp.tla (language semantics)", "spec/machine/RegAlloc.tla (location-map semantics)",
+                      "harness/regalloc.cpp macro expansion + node recorder", "checks/c05_tv.py translator (syntactic)",
+                      "asmjit InstAPI::query_rw_info (operand access kinds, Leg 1 only)"],
+        extra={"programs": ctx.extra.get("leg2_programs", 0),
+               "disagreements_checked": ctx.extra.get("leg2_disagreeing_programs", 0) + ctx.extra.get("leg1_rejected", 0),
+               "functions_validated_leg1": ctx.extra.get("leg1_functions", 0) + sum(v for k, v in ctx.extra.items() if k.endswith("_functions") and k != "leg1_functions")})
 
 
 def replay(ctx, path):
